@@ -69,6 +69,12 @@ func init() {
 	}
 	specs["C12"] = storeSpec(20000, 1000000, "published", "ack-duplicate", "ack-wrong-id", "ack-unknown-sender", "create-while-pending", "savepoint-folded")
 	specs["C13"] = storeSpec(20000, 800000, "published", "removed-obsolete", "retained-notified")
+	specs["C17"] = spec{Harness: "H-DKV-LOW", QuickRuns: 20000, QuickWallS: 50, ThoroughRuns: 1000000, ThoroughWallS: 1200, Chunk: 500,
+		MandatoryProbes: []string{"split-tables", "truncate", "wal-verified", "wal-full"},
+		Real:            []string{"sst.TableWriter (Write, WriteRun)", "sst.Table (Get, ScanPrefix, Document, NewTableFromDocument)", "sst.SearchIndex", "sst footer", "dkv/bloom", "dkv/fields", "storage.Cursor", "wal.Writer", "wal.Reader", "wal.Handle"},
+		Stub:            []string{"storage.FileSystem -> SimDisk"},
+		Assumptions:     []string{"weakest fit for this technique: the schedule/fault space is the restart between write and read (tables reopened from their JSON descriptor) and the Truncate-vs-writer interleaving of the WAL; the entry runs themselves are seeded input generation against a slice model"},
+		Rule:            "each run = one seeded case: either a key-ordered entry run (0-4500 entries, sizes straddling index spacing 16 and target/1.5x target, tombstones, empty/binary keys and values) written with Write/WriteRun, reopened from its JSON descriptor after a simulated restart, and probed with present/absent/before-first/after-last/between lookups and prefix scans; or a WAL history of put/delete/cut/rotate by one task with Truncate by another under a seeded interleaving, saved and replayed from every legal marker; non-trivial = finished with >= 1 probe; distinct = distinct (schedule hash, abstract state)"}
 	specs["C20"] = spec{Harness: "H-BATCH", QuickRuns: 30000, QuickWallS: 50, ThoroughRuns: 1500000, ThoroughWallS: 1200, Chunk: 500,
 		MandatoryProbes: []string{"flush-size", "flush-timeout", "flush-explicit", "stale-token", "fetch"},
 		Real:            []string{"batching.EventBatcher", "batching.ReorderFetcher", "batching.ReorderBuffer", "clocks.SystemTimer on the bubble's fake clock"},
